@@ -188,6 +188,24 @@ ClosedRowsStable ==
     [][\A j \in 1..ClosedRows : j <= ClosedRows' /\ RowView(j)' = RowView(j)]_vars
 
 (***************************************************************************)
+(* The reader's debug option (beyond the listed properties): every event is *)
+(* dumped to <dir>/<code>/<n>, n counting the earlier events dumped under   *)
+(* the same code.  A non-final splitter block is dumped under the splitter  *)
+(* code with its own payload; the final block under the WRAPPED code with   *)
+(* the accumulated data of all blocks.                                      *)
+(***************************************************************************)
+DumpCode(e) == IF e.k = "split" THEN (IF e.f = 1 THEN "gecko" ELSE "split") ELSE e.k
+DumpIndex(i) == Cardinality({j \in 1..(i - 1) : DumpCode(hist[j]) = DumpCode(hist[i])})
+\* the blocks whose data the dump of event i contains (itself, or the whole splitter run ending at i)
+RECURSIVE RunStart(_)
+RunStart(i) == IF i > 1 /\ hist[i - 1].k = "split" /\ hist[i - 1].f = 0 THEN RunStart(i - 1) ELSE i
+DumpToks(i) == IF hist[i].k = "split" /\ hist[i].f = 1 THEN [j \in 1..(i - RunStart(i) + 1) |-> hist[RunStart(i) + j - 1].tok]
+               ELSE << hist[i].tok >>
+DebugDump == [i \in 1..nev |-> [code |-> DumpCode(hist[i]), n |-> DumpIndex(i), toks |-> DumpToks(i)]]
+\* indices are dense per code: the n-th dump of a code has index n - 1
+DumpDense == \A i \in 1..nev : \A m \in 0..(DumpIndex(i) - 1) : \E j \in 1..(i - 1) : DumpCode(hist[j]) = DumpCode(hist[i]) /\ DumpIndex(j) = m
+
+(***************************************************************************)
 (* Export of complete behaviours for the conformance harness.               *)
 (***************************************************************************)
 ColJson(col) == [n \in 1..Len(CharSeq) |-> [p |-> CharSeq[n][1], f |-> CharSeq[n][2], toks |-> col[CharSeq[n]]]]
@@ -198,6 +216,7 @@ BehJson ==
                 items |-> items, off |-> off, gend |-> gend, gecko |-> gecko, gactual |-> gactual,
                 quirk |-> quirk, nev |-> nev ],
       steps |-> steps,
+      dump |-> DebugDump,
       emit |-> Emit(quirk),
       table |-> PayloadTable(TRUE),
       counts |-> DeclaredCounts(quirk) ]
